@@ -1134,6 +1134,131 @@ def translate_obs(src_root, which=("single", "double")):
     return "\n".join(L) + "\n", info
 
 
+# ================================================================================================ fixed-parameter reduction
+def translate_reduce(src_root):
+    """the statements that move fixed parameters out of the fit in `calibration_single_ended_helper` and
+    `calibrate_double_ended_helper`: every `y -= ...` and every `w = 1 / (1 / w + ...)`.  Each block is abstracted to a list of
+    terms (scalar `fix_P[0] * X` / `fix_P[1] * X**2`, or matrix `M.dot(fix_alpha[0][ix])` / `M.multiply(M).dot(fix_alpha[1][ix])`),
+    the value terms and the variance terms of a block must pair up (same parameter, same coefficient array, same index
+    expression), and the block is emitted as Lean and proved to be `ObsSpec.redY` / `ObsSpec.redW`.
+    NumPy/SciPy semantics written into the translator (trusted): `M.dot(a)` is the row-wise Σ_k M_rk a_k,
+    `M.multiply(M)` the element-wise square, `np.hstack` of per-block terms is row-wise concatenation."""
+    tree = ast.parse((Path(src_root) / "dtscalibration" / "calibrate_utils.py").read_text())
+    fns = {n.name: n for n in ast.walk(tree) if isinstance(n, ast.FunctionDef)}
+    L = ["\nnamespace DtsVerif.GenReduce\nopen DtsVerif.ObsSpec\nvariable {K : Type} [Field K]\n"]
+
+    def fixref(n):
+        """fix_P[k] or fix_P[k][<index>] -> (P, k, index source or None)"""
+        idx = None
+        if isinstance(n, ast.Subscript) and isinstance(n.value, ast.Subscript):
+            idx = ast.unparse(n.slice)
+            n = n.value
+        if isinstance(n, ast.Subscript) and isinstance(n.value, ast.Name) and n.value.id.startswith("fix_") \
+                and isinstance(n.slice, ast.Constant) and n.slice.value in (0, 1):
+            return n.value.id, n.slice.value, idx
+        return None
+
+    def term(n, kind):
+        """kind 0: value term, 1: variance term -> ('scalar'|'matrix', P, coefficient source, index) ; hstack -> list of terms"""
+        if isinstance(n, ast.Call) and _key(n.func) == "np.hstack" and len(n.args) == 1 and isinstance(n.args[0], ast.Tuple):
+            parts = [term(e, kind) for e in n.args[0].elts]
+            if any(isinstance(p_, list) for p_ in parts) or len({(p_[0], p_[1], p_[3]) for p_ in parts}) != 1:
+                raise Untranslatable(f"hstack of different reductions: {ast.unparse(n)[:80]}")
+            return ("scalar", parts[0][1], " ++ ".join(p_[2] for p_ in parts), parts[0][3])
+        if isinstance(n, ast.BinOp) and isinstance(n.op, ast.Mult):
+            fr = fixref(n.left)
+            if fr and fr[1] == kind:
+                coef = n.right
+                if kind == 1:
+                    if not (isinstance(coef, ast.BinOp) and isinstance(coef.op, ast.Pow) and isinstance(coef.right, ast.Constant) and coef.right.value == 2):
+                        raise Untranslatable(f"variance of a fixed parameter not multiplied by the squared coefficient: {ast.unparse(n)[:80]}")
+                    coef = coef.left
+                return ("scalar", fr[0], ast.unparse(coef), fr[2])
+        if isinstance(n, ast.Call) and isinstance(n.func, ast.Attribute) and n.func.attr == "dot" and len(n.args) == 1:
+            fr = fixref(n.args[0])
+            M = n.func.value
+            if fr and fr[1] == kind:
+                if kind == 1:
+                    if not (isinstance(M, ast.Call) and isinstance(M.func, ast.Attribute) and M.func.attr == "multiply" and len(M.args) == 1
+                            and ast.unparse(M.func.value) == ast.unparse(M.args[0])):
+                        raise Untranslatable(f"variance of fixed parameters not multiplied by the element-wise squared matrix: {ast.unparse(n)[:80]}")
+                    M = M.func.value
+                return ("matrix", fr[0], ast.unparse(M), fr[2])
+        raise Untranslatable(f"reduction term outside the fragment: {ast.unparse(n)[:80]}")
+
+    def flat_sum(n):
+        if isinstance(n, ast.BinOp) and isinstance(n.op, ast.Add):
+            return flat_sum(n.left) + flat_sum(n.right)
+        return [n]
+
+    nblocks = 0
+    for fname in ("calibration_single_ended_helper", "calibrate_double_ended_helper"):
+        if fname not in fns:
+            raise Untranslatable(f"{fname} not found")
+        ysubs, blocks = [], []
+
+        def walk(body):
+            nonlocal ysubs
+            for st in body:
+                if isinstance(st, ast.AugAssign) and isinstance(st.op, ast.Sub) and isinstance(st.target, ast.Name) and st.target.id == "y":
+                    ysubs.append(term(st.value, 0))
+                elif isinstance(st, ast.Assign) and len(st.targets) == 1 and isinstance(st.targets[0], ast.Name) and st.targets[0].id == "w" \
+                        and isinstance(st.value, ast.BinOp) and isinstance(st.value.op, ast.Div) and ast.unparse(st.value.left) == "1":
+                    parts = flat_sum(st.value.right)
+                    first = ast.unparse(parts[0])
+                    if first not in ("1 / w", "1 / w_"):
+                        raise Untranslatable(f"{fname}: the inflated variance does not start from the current weights: `{first}`")
+                    blocks.append((ysubs, [term(p_, 1) for p_ in parts[1:]]))
+                    ysubs = []
+                elif isinstance(st, ast.Assign) and len(st.targets) == 1 and isinstance(st.targets[0], ast.Name) and st.targets[0].id == "y":
+                    ysubs = []      # a fresh observation vector
+                elif isinstance(st, ast.If):
+                    before = list(ysubs)
+                    for branch in (st.body, st.orelse):
+                        ysubs = list(before)
+                        walk(branch)
+                        if len(ysubs) > len(before):
+                            raise Untranslatable(f"{fname}: a value is subtracted from y without inflating the variance: {ysubs[len(before):]}")
+                    ysubs = list(before)
+                elif isinstance(st, (ast.For, ast.With)):
+                    walk(st.body)
+
+        walk(fns[fname].body)
+        if ysubs:
+            raise Untranslatable(f"{fname}: a value is subtracted from y without inflating the variance: {ysubs}")
+        if not blocks:
+            raise Untranslatable(f"{fname}: no fixed-parameter reduction found")
+        for ys, ws in blocks:
+            if sorted(map(str, ys)) != sorted(map(str, ws)):
+                raise Untranslatable(f"{fname}: value terms {ys} and variance terms {ws} of one reduction do not pair up")
+            nblocks += 1
+            # Lean: scalar terms become (x_k, a_k) pairs, matrix terms lists of pairs
+            args, yexpr, wexpr, spec = [], "y", "(1 / w)", []
+            for k, tm in enumerate(ys):
+                if tm[0] == "scalar":
+                    args.append(f"(x{k} a{k} v{k} : K)")
+                    yexpr = f"({yexpr} - a{k} * x{k})"
+                    wexpr = f"({wexpr} + v{k} * x{k} ^ 2)"
+                    spec.append((f"[(x{k}, a{k})]", f"[(x{k}, v{k})]"))
+                else:
+                    args.append(f"(M{k} : List (K × K × K))")      # (coefficient, value, variance) per fixed parameter in the row
+                    yexpr = f"({yexpr} - (M{k}.map fun t => t.1 * t.2.1).sum)"
+                    wexpr = f"({wexpr} + (M{k}.map fun t => t.1 ^ 2 * t.2.2).sum)"
+                    spec.append((f"(M{k}.map fun t => (t.1, t.2.1))", f"(M{k}.map fun t => (t.1, t.2.2))"))
+            a = " ".join(args)
+            names = " ".join(x for ar in args for x in ar.strip("()").split(" : ")[0].split())
+            ylist = " ++ ".join(sp[0] for sp in reversed(spec)) if False else " ++ ".join(sp[0] for sp in spec)
+            wlist = " ++ ".join(sp[1] for sp in spec)
+            L.append(f"def y{nblocks} (y : K) {a} : K := {yexpr}")
+            L.append(f"theorem y{nblocks}_eq (y : K) {a} : y{nblocks} y {names} = redY y ({ylist}) := by\n"
+                     f"  simp only [y{nblocks}, redY, List.map_append, List.sum_append, List.map_cons, List.map_nil, List.sum_cons, List.sum_nil, List.map_map, Function.comp_def]\n  all_goals try ring")
+            L.append(f"def w{nblocks} (w : K) {a} : K := 1 / {wexpr}")
+            L.append(f"theorem w{nblocks}_eq (w : K) {a} : w{nblocks} w {names} = redW w ({wlist}) := by\n"
+                     f"  simp only [w{nblocks}, redW, List.map_append, List.sum_append, List.map_cons, List.map_nil, List.sum_cons, List.sum_nil, List.map_map, Function.comp_def]\n  all_goals try ring")
+    L.append("\nend DtsVerif.GenReduce")
+    return "\n".join(L) + "\n"
+
+
 # which generated sections tie which property's model to the source (a broken section is reported only for these)
 SECTIONS = {
     "C01": dict(formulas=(), extra=("obs-single",)),
@@ -1141,6 +1266,7 @@ SECTIONS = {
     "C04": dict(formulas=("temps",), extra=("layout",)),
     "C05": dict(formulas=("temps", "derivs", "terms"), extra=()),
     "C06": dict(formulas=("derivs", "terms", "weighted"), extra=()),
+    "C07": dict(formulas=(), extra=("reduce",)),
     "C08": dict(formulas=("temps", "mc"), extra=("mcunpack",)),
     "C12": dict(formulas=(), extra=("time",)),
     "C19": dict(formulas=(), extra=("guards",)),
@@ -1163,6 +1289,8 @@ def translate_for(prop, src_root):
             text += translate_guards(src_root)
         elif e == "shift":
             text += translate_shift(src_root)
+        elif e == "reduce":
+            text += translate_reduce(src_root)
         elif e in ("obs-single", "obs-double"):
             t_, info = translate_obs(src_root, which=(e.split("-")[1],))
             text += t_
